@@ -208,6 +208,10 @@ class MaildropRelay(PipeRelay):
         super(MaildropRelay, self).__init__(args, timeout)
 
     def raise_error(self, status, stdout, stderr):
+        if isinstance(stdout, bytes):
+            stdout = stdout.decode('utf-8', 'replace')
+        if isinstance(stderr, bytes):
+            stderr = stderr.decode('utf-8', 'replace')
         error_msg = 'Delivery failed'
         if stdout.startswith('maildrop: '):
             error_msg = stdout[10:].rstrip()
@@ -247,6 +251,10 @@ class DovecotLdaRelay(PipeRelay):
         super(DovecotLdaRelay, self).__init__(args, timeout)
 
     def raise_error(self, status, stdout, stderr):
+        if isinstance(stdout, bytes):
+            stdout = stdout.decode('utf-8', 'replace')
+        if isinstance(stderr, bytes):
+            stderr = stderr.decode('utf-8', 'replace')
         error_msg = stdout.rstrip() or stderr.rstrip() or 'LDA delivery failed'
         if status == self.EX_TEMPFAIL:
             reply = Reply('450', error_msg)
